@@ -541,7 +541,6 @@ func genFor(prop, part string, seed uint64) *Scenario {
 				}
 				sc.Clients = append(sc.Clients, ops)
 			}
-			stripPrioIfPop(sc)
 			return sc
 		}
 		pf.modes = []string{"auto", "auto", "manual"}
@@ -556,7 +555,6 @@ func genFor(prop, part string, seed uint64) *Scenario {
 	sc := genMixed(seed, prop+"/"+part, pf)
 	if prop == "C13" {
 		c13Boost(sc, common.NewRng(seed^0x13))
-		stripPrioIfPop(sc)
 	}
 	if prop == "C03" && sc.End != "natural" && len(sc.Bars) > 0 {
 		// busy bars at the moment of cancellation: workers that keep a bar's
@@ -846,23 +844,6 @@ func genC05Queue(seed uint64) *Scenario {
 		sc.FinalRefr = 3
 	}
 	return sc
-}
-
-// stripPrioIfPop: a user priority change on a finished bar contradicts "finished
-// bars rise above all running bars"; display scenarios in pop mode leave them out.
-func stripPrioIfPop(sc *Scenario) {
-	if !sc.Pop {
-		return
-	}
-	for ci := range sc.Clients {
-		var keep []Op
-		for _, o := range sc.Clients[ci] {
-			if o.K != "prio" && o.K != "setprio" {
-				keep = append(keep, o)
-			}
-		}
-		sc.Clients[ci] = keep
-	}
 }
 
 // genC02Waiters: several goroutines parked in Progress.Wait while bars with
